@@ -65,21 +65,27 @@ static bool ticket_cas(struct barrier_base *self, size_t node, int round, barrie
   return false;
 }
 #else
-struct state_t { barrier_phase_t tickets[64]; };
-#define VX_MAXNODES 3
+/* bounded stand-in: (VX_MAX_EXPECTED+1)/2 nodes x 4 rounds are all that expected <= VX_MAX_EXPECTED <= 8 can reach (asserted); the 64-ticket bound and the
+ * node bound for every expected are obligations of the unbounded unit barrier.base_arrive */
+#ifndef VX_MAX_EXPECTED
+#define VX_MAX_EXPECTED 6
+#endif
+#define VX_MAXROUNDS 4
+struct state_t { barrier_phase_t tickets[VX_MAXROUNDS]; };
+#define VX_MAXNODES ((VX_MAX_EXPECTED + 1) / 2)
 static struct state_t g_state[VX_MAXNODES];
 static bool ticket_cas(struct barrier_base *self, size_t node, int round, barrier_phase_t *expected, barrier_phase_t desired)
 {
   VX_ASSERT(node < g_count && node < VX_MAXNODES, "state[current] in bounds");
-  VX_ASSERT(round >= 0 && round < 64, "tickets[round] in bounds");
-  barrier_phase_t *p = &g_state[node].tickets[round];
-  if (*p == *expected)
+  VX_ASSERT(round >= 0 && round < VX_MAXROUNDS, "tickets[round] in bounds");
+  barrier_phase_t cur = g_state[node].tickets[round];
+  if (cur == *expected)
   {
-    ticket_step(node, round, *p, desired);
-    *p = desired;
+    ticket_step(node, round, cur, desired);
+    g_state[node].tickets[round] = desired;
     return true;
   }
-  *expected = *p;
+  *expected = cur;
   return false;
 }
 #endif
@@ -102,11 +108,11 @@ static size_t hash_thread_id(vx_thread_id id)
 /* std::hash<std::thread::id>()(std::this_thread::get_id()): any value */
 static size_t hash_std_thread_id(void)
 {
-  size_t h = nondet_size();
 #ifdef U_BOUNDED
-  if (h >= 8) h = h & 7;   /* bounded stand-in only: every residue modulo (expected+1)/2 <= 3 still occurs */
+  return (size_t) (nondet_u8() & 7);   /* bounded stand-in only: every residue modulo (expected+1)/2 <= 3 still occurs */
+#else
+  return nondet_size();
 #endif
-  return h;
 }
 
 /* new state_t[count] (default member initialiser: every ticket phase{0}) */
